@@ -831,6 +831,7 @@ class Gen:
                     "map_sum": ([".", "iter", "(", ")", ".", "map", "("], [".", "sum", "(", ")"], "it_map_sum_u64(&", False),
                     "try_map_collect": ([".", "iter", "(", ")", ".", "map", "("], [".", "collect", "(", ")"], "it_try_map(", False),
                     "into_map_collect": ([".", "into_iter", "(", ")", ".", "map", "("], [".", "collect", "(", ")"], "it_into_map(", False),
+                    "map_collect_vec": ([".", "iter", "(", ")", ".", "map", "("], [t.text for t in rs.sig(rs.tokenize(".collect::<Vec<_>>()"))], "it_map_collect(", False),
                 }
                 if kind_ not in pats: raise SystemExit(f"{self.spec_path}:{c.line}: unknown adapter {kind_}")
                 head, tail, fn_open, _ = pats[kind_]
